@@ -44,7 +44,7 @@ def _scene_spec(rng, similarity):
             spec.append(["frame", name, parent, M])
         else:
             name = f"n{i}"
-            spec.append(["inst", name, parent, M, rng.choice(["box", "tet", "tet", "pc", "path"])])
+            spec.append(["inst", name, parent, M, rng.choice(["box", "tet", "tet", "pc", "path", "vonly"])])
         nodes.append(name)
     return spec
 
@@ -83,6 +83,10 @@ def _geom(name):
         return trimesh.creation.box(extents=[1, 2, 3])
     if name == "tet":
         return trimesh.Trimesh([[0, 0, 0], [1, 0, 0], [0, 1, 0], [0, 0, 1]], [[0, 2, 1], [0, 1, 3], [1, 2, 3], [0, 3, 2]], process=False)
+    if name == "vonly":
+        # a mesh with vertices but no faces (concatenation must still offset the faces of what follows)
+        return trimesh.Trimesh(vertices=np.array([[0, 0, 0], [1, 0, 0], [0, 1, 0], [5, 5, 5.0]]), faces=np.zeros((0, 3), dtype=np.int64),
+                               process=False)
     if name == "pc":
         return trimesh.PointCloud(np.array([[0, 0, 0], [1, 2, 0], [0, 1, 3], [2, 2, 2.0]]))
     from trimesh.path.entities import Line
